@@ -144,3 +144,42 @@ Proof.
       left. unfold gap, gapb. cbn [hb_b hb_vault]. lia.
     + exists hb. split; [rewrite nth_bank_put_other by assumption; exact Hb|left; lia].
 Qed.
+
+(* ------------------------------------------------------------------------------------------ *)
+(* histories: failed instructions roll back (hstep_total) *)
+Fixpoint run_slack (w : hworld) (ops : list hop) (b : nat) : Z :=
+  match ops with
+  | [] => 0
+  | o :: r =>
+      (match hstep w o, nth_bank w b with Ok _, Ok hb => step_slack w o b hb | _, _ => 0 end)
+      + run_slack (hstep_total w o) r b
+  end.
+
+(* a sanctioned exception (token-less write-off / wipe-out) hit bank b somewhere in the history *)
+Fixpoint run_exception (w : hworld) (ops : list hop) (b : nat) : Prop :=
+  match ops with
+  | [] => False
+  | o :: r =>
+      (exists w' hb hb', hstep w o = Ok w' /\ nth_bank w b = Ok hb /\ nth_bank w' b = Ok hb' /\ sanctioned w o b hb hb')
+      \/ run_exception (hstep_total w o) r b
+  end.
+
+(* every state along the history is well-formed, every instruction carries u64 amounts *)
+Fixpoint run_ok (w : hworld) (ops : list hop) : Prop :=
+  HOk w /\ match ops with [] => True | o :: r => hop_ok o /\ run_ok (hstep_total w o) r end.
+
+Theorem hrun_gap ops : forall w b hb, run_ok w ops -> nth_bank w b = Ok hb ->
+  exists hb', nth_bank (hrun w ops) b = Ok hb' /\ (gap hb - run_slack w ops b <= gap hb' \/ run_exception w ops b).
+Proof.
+  induction ops as [|o r IH]; intros w b hb Hrun Hb; cbn [hrun fold_left run_slack run_exception].
+  - exists hb. split; [exact Hb|left; lia].
+  - destruct Hrun as (Hok & Hop & Hrest). unfold hstep_total in *.
+    destruct (hstep w o) as [w'|e] eqn:E.
+    + destruct (hstep_gap _ _ _ Hok Hop E _ _ Hb) as (hb1 & Hb1 & G1).
+      destruct (IH _ _ _ Hrest Hb1) as (hb2 & Hb2 & G2).
+      exists hb2. split; [exact Hb2|]. rewrite Hb.
+      destruct G1 as [G1|G1]; [|right; left; exists w', hb, hb1; repeat split; assumption].
+      destruct G2 as [G2|G2]; [left; lia|right; right; exact G2].
+    + destruct (IH _ _ _ Hrest Hb) as (hb2 & Hb2 & G2).
+      exists hb2. split; [exact Hb2|]. destruct G2 as [G2|G2]; [left; lia|right; right; exact G2].
+Qed.
